@@ -138,6 +138,11 @@ def run(case, seed):
     out["lanczos_inner"] = float(np.abs(Rm[:, :mm - 1]).max() / sc) if mm > 1 else 0.0   # all but the last column vanish identically
     out["lanczos_last"] = float(np.linalg.norm(Rm[:, mm - 1]) / sc)                        # ~0 exactly in the breakdown exit
     out["ortho"] = float(np.abs(V.conj().T @ V - np.eye(mm)).max())
+    # the returned vector is ||v|| * V * exp(dt*T) * e1 for the logged (alpha, beta, V)  (Model/Krylov.v: ret_vec)
+    rv = float(np.linalg.norm(v)) * (V @ scipy.linalg.expm(dt * T)[:, 0])
+    out["ret_gap"] = float(np.linalg.norm(res - rv) / (np.linalg.norm(v) * max(amp, float(np.exp(np.max((dt * al).real))) if mm else amp)))
+    # hypotheses of krylov_return_fullspace on the logged V (orthonormal and complete) when that exit was taken
+    out["complete"] = float(np.abs(V @ V.conj().T - np.eye(n)).max()) if (last["site"] == 0 and mm == n) else None
     return out
 
 
